@@ -1,52 +1,29 @@
-"""Which Lean theorems carry which property (audited with #print axioms on every run)."""
+"""Which Lean theorems carry which property (audited with #print axioms on every run).
 
-THEOREMS: dict[str, list[str]] = {
-    "C01": [
-        "Rbacx.C01.c01_allowed_iff_permit", "Rbacx.C01.c01_allowed_iff_permit_guard", "Rbacx.C01.c01_permit_has_witness",
-        "Rbacx.C01.c01_none_applicable_denies", "Rbacx.C01.c01_empty_policy",
-    ],
-    "C02": [
-        "Rbacx.C02.c02_deny_overrides",
-        "Rbacx.C02.c02_permit_overrides",
-        "Rbacx.C02.c02_first_applicable",
-        "Rbacx.C02.c02_none_applicable",
-    ],
-    "C04": [
-        "Rbacx.C04.c04_order_numbers_only", "Rbacx.C04.c04_time_operands", "Rbacx.C04.c04_strict_time",
-        "Rbacx.C04.c04_between_inclusive", "Rbacx.C04.c04_string_ops", "Rbacx.C04.c04_collection_ops",
-        "Rbacx.C04.c04_membership_ops", "Rbacx.C04.c04_eq_kind_strict", "Rbacx.C04.c04_and_short_circuit",
-        "Rbacx.C04.c04_or_short_circuit", "Rbacx.C04.c04_not", "Rbacx.C04.c04_not_mismatch",
-        "Rbacx.C04.c04_resolve_missing_step", "Rbacx.C04.c04_resolve_null_absorbs", "Rbacx.C04.c04_mismatch_is_local",
-        "Rbacx.C04.c04_mismatch_not_applicable",
-    ],
-    "C05": [
-        "Rbacx.C05.c05_actions", "Rbacx.C05.c05_match_iff", "Rbacx.C05.c05_empty_target", "Rbacx.C05.c05_type_iff",
-        "Rbacx.C05.c05_strict_type_no_coercion", "Rbacx.C05.c05_id_iff", "Rbacx.C05.c05_strict_id_no_coercion",
-        "Rbacx.C05.c05_attr_iff", "Rbacx.C05.c05_attrs_iff", "Rbacx.C05.c05_missing_attr_fails", "Rbacx.C05.c05_engine_flag",
-        "Rbacx.C05.c05_path_reference", "Rbacx.C05.c05_path_compiled",
-    ],
-    "C06": [
-        "Rbacx.C06.c06_total", "Rbacx.C06.c06_operands_never_raise", "Rbacx.C06.c06_mismatch_skips_rule",
-    ],
-    "C07": [
-        "Rbacx.C07.c07_ok_iff_all_met", "Rbacx.C07.c07_first_unmet_challenge", "Rbacx.C07.c07_positive_has_no_challenge",
-        "Rbacx.C07.c07_guard_gate", "Rbacx.C07.c07_guard_pass", "Rbacx.C07.c07_custom_negative_honoured",
-        "Rbacx.C07.c07_deny_stays_deny", "Rbacx.C07.c07_other_effect_ignored", "Rbacx.C07.c07_truthy_rows",
-        "Rbacx.C07.c07_level_row", "Rbacx.C07.c07_level_illtyped", "Rbacx.C07.c07_reauth_row", "Rbacx.C07.c07_not_a_number",
-        "Rbacx.C07.c07_http_row", "Rbacx.C07.c07_consent_keyed_row", "Rbacx.C07.c07_unknown_type_ignored",
-    ],
-    "C20": [
-        "Rbacx.C20.c20_downstream_iff_allowed", "Rbacx.C20.c20_single_403", "Rbacx.C20.c20_body_is_generic",
-        "Rbacx.C20.c20_headers_only_when_enabled", "Rbacx.C20.c20_errors_block_downstream", "Rbacx.C20.c20_passthrough",
-        "Rbacx.C20.c20_guard_injected", "Rbacx.C20.c20_obligation_failed_is_403",
-    ],
-}
+One file per property under harness/claims/Cxx.json: {"property_id", "theorems": [...], "claim": {...}} —
+kept per property so that independent work on different properties never touches a shared file."""
+from __future__ import annotations
 
-PROPERTY_IMPORTS = ["Rbacx.Properties.C02"]
+import glob
+import json
+import os
+
+_DIR = os.path.join(os.path.dirname(os.path.abspath(__file__)), "claims")
+
+
+def load_claims() -> dict[str, dict]:
+    out = {}
+    for p in sorted(glob.glob(os.path.join(_DIR, "C*.json"))):
+        d = json.load(open(p, encoding="utf-8"))
+        out[d["property_id"]] = d
+    return out
+
+
+THEOREMS: dict[str, list[str]] = {pid: d.get("theorems", []) for pid, d in load_claims().items()}
 
 
 def audit_source() -> str:
-    lines = ["import Rbacx", "/-! GENERATED from harness/registry.py: axioms of every property theorem. -/"]
+    lines = ["import Rbacx", "/-! GENERATED from harness/claims/*.json: axioms of every property theorem. -/"]
     for prop in sorted(THEOREMS):
         for t in THEOREMS[prop]:
             lines.append(f"#print axioms {t}")
